@@ -1,4 +1,5 @@
 import Mutagen.Model.Entry
+import Mutagen.Generated.Facts
 /-!
 Abstract filesystem and model of the on-disk transition algorithm
 (`/repo/pkg/synchronization/core/transition.go`), core Lean only, executable.
@@ -251,7 +252,7 @@ structure Env where
   tmpName : Nat → List Name → Name
 
 /-- `crossDeviceRenameTemporaryNamePrefix` (the pattern passed to the hook). -/
-def tmpPattern : String := ".mutagen-temporary-cross-device-rename"
+def tmpPattern : String := Mutagen.Facts.transitionCrossDevicePrefix
 
 structure St where
   fs : Node
@@ -684,7 +685,7 @@ structure ScanCfg where
   H : List UInt8 → List UInt8
 
 /-- `strings.HasPrefix(name, filesystem.TemporaryNamePrefix)`. -/
-def isTemporaryName (n : Name) : Bool := ".mutagen-temporary-".isPrefixOf n
+def isTemporaryName (n : Name) : Bool := Mutagen.Facts.transitionTemporaryNamePrefix.isPrefixOf n
 
 mutual
 /-- scan.go `scanner.directory` / `file` / `symbolicLink` on a healthy tree. -/
